@@ -43,4 +43,8 @@ def run(check):
     check.run_rule('C03.R5', lambda c: rule_mask_hide(c, model(), 'C03.R5', None))
     from ..rules_defaults import rule_neutral_defaults
     check.run_rule('C03.R5d', lambda c: rule_neutral_defaults(c, 'C03.R5', 'mask'))
+    from ..rules_defaults import rule_public_switch_defaults
+    check.run_rule('C03.R5p', lambda c: rule_public_switch_defaults(c, 'C03.R5', '_signatures:mask', 'the residual signature with nothing hidden'))
+    from ..rules_mask import rule_reserved_names_complete
+    check.run_rule('C03.R1r', lambda c: rule_reserved_names_complete(c, model(), 'C03.R1'))
     check.run_rule('C03.R5b', lambda c: rule_mask_binding(c, model(), 'C03.R5'))
